@@ -24,6 +24,7 @@ const (
 	errorInvalidBulkStringLength = "invalid bulk string length (%d != %d)"
 	errorInvalidBulkStringDelim  = "invalid bulk string ending delimiter %s"
 	errorInvalidArrayLength      = "invalid array length (%d != %d)"
+	errorInvalidArrayDepth       = "invalid array depth (nested more than %d deep)"
 )
 
 // ErrEOM is the error returned by Array::Next() when no more message is available.
